@@ -500,6 +500,18 @@ func (c *Cluster) LeaderTerms() int {
 // replicas that were running on it.
 func (h *Host) Start() error {
 	nh, err := dragonboat.NewNodeHost(h.nhConfig())
+	for try := 0; err != nil && h.Proxy != nil && try < 5 && strings.Contains(err.Error(), "address already in use"); try++ {
+		// wire mode: another process took the listen port between the probe and the bind;
+		// the host moves to another port (its advertised address, the proxy's, stays)
+		listen, perr := freePort()
+		if perr != nil {
+			break
+		}
+		h.Listen = listen
+		h.Proxy.Retarget(listen)
+		h.c.Sink.Count("wire_listen_port_taken_moved", 1)
+		nh, err = dragonboat.NewNodeHost(h.nhConfig())
+	}
 	if err != nil {
 		return err
 	}
